@@ -23,6 +23,63 @@ def tolerated(case, r) -> bool:
     return e.get("where", "").endswith("code_fill_ttree") and "Do not know how to loop over" in e.get("msg", "")
 
 
+def operator_context_cases(ctx: Ctx, backend: str, opts, fraction: int):
+    """Every operator of the documented fragment placed in every kind of live context (the position templates of C09:
+    event/object columns, Where at three levels, inner Select, Aggregate body, under Sum/First, behind Select/tuple/dict
+    chains, conditional test and arm, right operand of `and`, arithmetic operand, math argument, Range bound)."""
+    from .. import evgen, qgen
+    from .c09 import as_kind, positions
+    s = sch.fixed(backend)
+    C = s["main"]["coll"]
+
+    def seq(J, E):
+        return f"{J}.trkPts()" if J else f"{E}.{C}('A').Select(lambda q: q.pt())"
+
+    def iseq(J, E):
+        return f"{J}.hits()" if J else f"{E}.{C}('A').Select(lambda q: q.nTrk())"
+
+    def x(J, E):
+        return f"{J}.pt()" if J else f"{E}.{C}('A').Count()"
+
+    def i(J, E):
+        return f"{J}.nTrk()" if J else f"{E}.{C}('B').Count()"
+    OPS = [("add", "num", lambda J, E: f"({x(J, E)} + {i(J, E)})"), ("sub", "num", lambda J, E: f"({x(J, E)} - 1.5)"), ("mul", "num", lambda J, E: f"({x(J, E)} * {i(J, E)})"),
+           ("div", "num", lambda J, E: f"({x(J, E)} / ({i(J, E)} + 1))"), ("pow", "num", lambda J, E: f"({i(J, E)} ** 2)"), ("mod", "num", lambda J, E: f"({i(J, E)} % 3)"),
+           ("neg", "num", lambda J, E: f"(-{x(J, E)})"), ("uadd", "num", lambda J, E: f"(+{i(J, E)})"), ("not", "bool", lambda J, E: f"(not ({x(J, E)} > 5))"),
+           ("cmp", "bool", lambda J, E: f"({x(J, E)} >= {i(J, E)})"), ("eq", "bool", lambda J, E: f"({i(J, E)} == 2)"), ("and", "bool", lambda J, E: f"({x(J, E)} > 1 and {i(J, E)} < 4)"),
+           ("or", "bool", lambda J, E: f"({x(J, E)} > 40 or {i(J, E)} == 0 or {i(J, E)} == 3)"), ("ifexp", "num", lambda J, E: f"({x(J, E)} if {i(J, E)} > 1 else -1.0)"),
+           ("math", "num", lambda J, E: f"sqrt(abs({x(J, E)}))"), ("math2", "num", lambda J, E: f"atan2({x(J, E)}, 2.0)"), ("count", "num", lambda J, E: f"{seq(J, E)}.Count()"),
+           ("sum", "num", lambda J, E: f"{seq(J, E)}.Sum()"), ("aggregate", "num", lambda J, E: f"{iseq(J, E)}.Aggregate(1, lambda a, v: a + v * 2)"),
+           ("where_count", "num", lambda J, E: f"{seq(J, E)}.Where(lambda v: v > 10.0).Count()"), ("first_guarded", "num", lambda J, E: f"({seq(J, E)}.First() if {seq(J, E)}.Count() > 0 else -1.0)"),
+           ("index_guarded", "num", lambda J, E: f"({iseq(J, E)}[1] if {iseq(J, E)}.Count() > 1 else -1)"), ("range_sum", "num", lambda J, E: f"Range(0, {i(J, E)}).Sum()"),
+           ("tuple_index", "num", lambda J, E: f"({x(J, E)}, {i(J, E)})[1]"), ("dict_index", "num", lambda J, E: f"{{'p': {x(J, E)}, 'q': {i(J, E)}}}['p']"),
+           ("select_sum", "num", lambda J, E: f"{seq(J, E)}.Select(lambda v: v * 2).Sum()")]
+    out = []
+    k = 0
+    for oname, okind, ofn in OPS:
+        for pname, pkind, pfn in positions(backend, s):
+            if pname == "range_bound" and oname not in ("count", "mod", "aggregate", "add", "uadd", "tuple_index"):
+                continue
+            k += 1
+            if (k + ctx.seed) % fraction != 0:
+                continue
+            R = ctx.rng("opctx", backend, oname, pname)
+            g = qgen.QGen(s, R, **opts)
+
+            def gr(env, J, E, ofn=ofn, okind=okind, pkind=pkind, pname=pname):
+                e = ofn(J, E)
+                if pname == "range_bound":
+                    e = f"{i(J, E)}" if okind != "num" else e.replace(".pt()", ".nTrk()").replace("1.5", "1")
+                return as_kind(e, okind, "num" if pkind == "col" else pkind)
+            try:
+                q = pfn(gr, g)
+            except qgen.CannotGenerate:
+                continue
+            evs = evgen.gen_events(s, ctx.rng("opctx_ev", backend, k % 5), 6)
+            out.append(diff.Case(backend, q, evs, diff.members_used(s, q), tag={"features": {"op_" + oname: 1, "ctx_" + pname: 1, "pair": 1}, "query": q}))
+    return out
+
+
 def run(ctx: Ctx) -> int:
     eng = diff.Engine(ctx)
     if ctx.replay:
@@ -42,6 +99,12 @@ def run(ctx: Ctx) -> int:
             done += len(cases)
             if not cases:
                 break
+    # operator x context pair sweep
+    for backend in sch.BACKENDS:
+        frac = ctx.pick(9 if backend == "atlas" else 27, 1)
+        cases = operator_context_cases(ctx, backend, opts, frac)
+        ctx.count("operator_context_pairs", len(cases))
+        diff.differential(ctx, eng, cases, judge.on_result)
     judge.settle()
     decided = ctx.counters["events_decided"]
     if decided < (ctx.counters["events_unspec"] + decided) * 0.5:
